@@ -197,22 +197,30 @@ Print Assumptions C11_errno_mapping.
 
 (* ================= (c) ownership ================= *)
 
+(* Every operation without entry lists, every reachable result state -
+   early error, cancelled, completed by sync/pool, completed by the ring, ring
+   completion -EOPNOTSUPP followed by the pool retry (statx included, after
+   e5b94ea): after uv_fs_req_cleanup nothing the request allocated is live
+   (only the caller's uv_dir_t), nothing was freed twice or without being
+   owned, all four pointers are NULL. *)
 Theorem C11_cleanup_releases_all :
   forall k cb big stt,
-  has_entries k = false -> valid k cb stt = true -> statx_fallback_ok k stt = false ->
+  has_entries k = false -> valid k cb stt = true ->
   cleaned k cb big stt.
 Proof. exact cleanup_releases_all. Qed.
 Print Assumptions C11_cleanup_releases_all.
 
-(* the excluded state: ring statx answered -EOPNOTSUPP, the pool retry
-   succeeds and overwrites req->ptr: the struct statx stays allocated *)
-Theorem C11_cleanup_releases_all_refuted :
+(* History: with the pre-fix re-post (no free before uv__fs_post) a ring statx
+   answered -EOPNOTSUPP whose pool retry succeeded kept its struct statx. *)
+Theorem C11_cleanup_statx_retry_leaked_before_fix :
   forall n,
-  let '(q, h) := reach KStat true false (LDoneRing true true n) (h0_of KStat) in
-  let '(q1, h1) := req_cleanup q h in
-  live h1 = [BkStatx].
-Proof. exact cleanup_statx_fallback_leaks. Qed.
-Print Assumptions C11_cleanup_releases_all_refuted.
+  let '(q, h) := req_init KStat true false (h0_of KStat) in
+  let '(q1, h1) := ring_submit q h in
+  let '(q2, h2) := old_ring_finish_unsupported q1 true n h1 in
+  let '(q3, h3) := req_cleanup q2 h2 in
+  live h3 = [BkStatx].
+Proof. exact old_statx_fallback_leaked. Qed.
+Print Assumptions C11_cleanup_statx_retry_leaked_before_fix.
 
 Theorem C11_cleanup_entries_failed :
   forall k cb big stt,
